@@ -97,6 +97,14 @@ let () = iter_lines (fun line ->
         print_endline (Buffer.contents b) in
       (match bytes with
        | [] when targa <> "1" -> print_endline "rd err EMPTY"
+       | c :: _ when targa <> "1" && int_of_z c = 66 ->
+         let huge = (match bmp_header true mp None bytes with
+                     | BOk (hd, _) -> int_of_z hd.b_w * int_of_z hd.b_h > 65536 || int_of_z hd.b_w > 65536
+                     | BErr _ -> false) in
+         if huge then print_endline "skip huge" else
+         (match load_bmp_cj rgb_to_cmyk mp bytes with
+          | BErr e -> print_endline ("rd err " ^ berr_name e)
+          | BOk (((w, h), t), rows) -> pr w h (z_of_int (match t with TGray -> 1 | _ -> 3)) 0 rows)
        | c :: _ when targa <> "1" && int_of_z c <> 71 && int_of_z c <> 0 -> print_endline "rd err UNKNOWN"
        | c :: _ when targa <> "1" && int_of_z c = 71 ->
          (match gif_header mp bytes with
